@@ -153,6 +153,22 @@ func buildUniverse(rig *planrig.Rig, mode string) *universe {
 				}
 				add(spellTime(s.Add(time.Second), mode, "period_start+1s", false))
 			}
+			if i == 1 || len(tabs) == 1 {
+				// "partial starts": values that look like the first instant of the period in
+				// some but not all components (a start test that forgets one component treats
+				// them as the period start and drops the period that holds the rows before them)
+				switch l.Rule {
+				case "date_year":
+					add(spellTime(s.AddDate(0, 0, 14), mode, "jan_midnight_not_first", false)) // Y-01-15
+					add(spellTime(s.AddDate(0, 0, 14), mode, "jan_midnight_not_first", true))  // Y-01-15 00:00:00
+					add(spellTime(s.AddDate(0, 5, 0), mode, "month_start_midnight", true))     // Y-06-01 00:00:00 (date-only form = mid_period)
+					add(spellTime(s.AddDate(0, 5, 14), mode, "midnight_not_first", false))     // Y-06-15
+					add(spellTime(s.Add(12*time.Hour+30*time.Minute), mode, "first_day_not_midnight", false))
+				case "date_month":
+					add(spellTime(s.AddDate(0, 0, 14), mode, "midnight_not_first", true)) // Y-M-15 00:00:00 (date-only form = mid_period)
+					add(spellTime(s.Add(12*time.Hour+30*time.Minute), mode, "first_day_not_midnight", false))
+				}
+			}
 			add(spellTime(periodMid(l.Rule, s), mode, "mid_period", false))
 			add(spellTime(nx.Add(-time.Second), mode, "period_end", false))
 			if i+1 < len(tabs) && !periodStart(l.Rule, tabs[i+1]).Equal(nx) { // unconfigured gap
